@@ -99,6 +99,13 @@ func (k msgServer) RotateValidatorByHalfRRTokenHolder(goCtx context.Context, msg
 		return nil, types.ErrTargetAddressHasIdentityRecords
 	}
 
+	// nor may the target already be a network actor: its record would be overwritten while its permission
+	// and role index entries stay behind; after the next rotation away they point at no actor and every
+	// enumeration of that permission (gov end-blocker, upgrade begin-blocker) panics
+	if _, found := k.gk.GetNetworkActorByAddress(ctx, sdk.MustAccAddressFromBech32(msg.Recovery)); found {
+		return nil, types.ErrTargetAddressIsNetworkActor
+	}
+
 	// set rotation history
 	k.SetRotationHistory(ctx, types.Rotation{
 		Address: msg.Address,
@@ -293,6 +300,13 @@ func (k msgServer) RotateRecoveryAddress(goCtx context.Context, msg *types.MsgRo
 	// onto it would overwrite its address+key index entries and leave its records un-indexed
 	if len(k.gk.GetIdRecordsByAddress(ctx, sdk.MustAccAddressFromBech32(msg.Recovery))) > 0 {
 		return nil, types.ErrTargetAddressHasIdentityRecords
+	}
+
+	// nor may the target already be a network actor: its record would be overwritten while its permission
+	// and role index entries stay behind; after the next rotation away they point at no actor and every
+	// enumeration of that permission (gov end-blocker, upgrade begin-blocker) panics
+	if _, found := k.gk.GetNetworkActorByAddress(ctx, sdk.MustAccAddressFromBech32(msg.Recovery)); found {
+		return nil, types.ErrTargetAddressIsNetworkActor
 	}
 
 	// set rotation history
